@@ -198,6 +198,14 @@ PROPS["C06"]["parts"].append(dict(name="shutdown06", domain="shutdown", domain_m
 PROPS["C06"]["level_note"] = PROPS["C06"]["level_note"].replace("Shutdown (nil only after Wait, store closed only then, ctx error ⇒ store not closed) is not in the model: not claimed by a theorem, covered by no correspondence yet – PARTIAL for the Shutdown sentence of the property.",
     "Shutdown is a separate small model (M2s: nil/close-error only with nothing in flight and exactly one Close; context error ⇒ no Close; blocks iff work in flight and context live), tied by a harness that holds async handlers at a gate and waits 60 ms to call a Shutdown 'blocked' (timing based; the case where both select branches are ready is excluded because Go picks at random).")
 
+# control-flow obligations (M12): every property whose module states `flow_*` theorems says so in its claim
+for _p in ("C01", "C02", "C03", "C04", "C05", "C06", "C07", "C08", "C09", "C10", "C11", "C12", "C13", "C14", "C16", "C17", "C18", "C19", "C20"):
+    PROPS[_p]["level_text"] = PROPS[_p].get("level_text", "") + (" Obligations `flow_*` on the control-flow skeleton regenerated from the current source on every run "
+        "(order and nesting of the statements the model transcribes: go/extract/pipeline.go -> Ebu/Generated/Flow.lean, predicates in Ebu/Spec/Flow.lean) are decided by the kernel.")
+PROPS["C06"]["level_text"] += (" M2 with its trace: every async goroutine performs at most one asynchronous delivery (the one it was started for) and exactly one once it has finished with a live "
+    "publish context; a state from which no goroutine can step is quiescent with everything delivered; under a strict rank every schedule is finite (explicit bound) and can be continued to a quiescent end: Wait returns after finitely many steps whatever the scheduler does.")
+PROPS["C07"]["level_text"] += " Async(+Sequential) deliveries: exactly once per dispatched event (trace theorem); no invocation starves (progress theorem under the rank hypothesis)."
+
 # what the parts added after the second and third rounds of seeded changes exercise (appended to the evidence's rule text)
 _EXTRA_RULE = {
  "C02": " + stress/regs: real concurrency, 8 handlers, overlapping Unsubscribes of a random subset while two publishers publish, judged at quiescence (count, exactly-once for kept handlers, nothing for removed ones); two conc types share a registry shard, Clear of an unsubscribed colliding type; option values shared between subscriptions",
